@@ -1631,6 +1631,8 @@ pub fn seeded_session(rng: &mut StdRng, profile: &str) -> Option<String> {
         "fcnt" => (&[0, 5, 0xFFFE], &[-1, 0, 0xFFFE, 0xFFFF, 0x1FFFE, 0x1_0000, 0x7FFF_FFFE, 0xFFFF_BFFE, 0xFFFF_FFFC, 0xFFFF_FFFE]),
         "faults" => (&[0, 0xFFFE, 0xFFFF, 0x1_FFFF, 0xFFFF_FFFC, 0xFFFF_FFFD, 0xFFFF_FFFE, 0xFFFF_FFFF], &[-1, 0]),
         "adr" => (&[0, 0xFFFF_FF00], &[-1]),
+        // frames that are not accepted must change nothing whatever the state of the session, the last counter included
+        "reject" => (&[0, 0xFFFF, 0xFFFF_FFFE, 0xFFFF_FFFF], &[-1, 0, 0xFFFF]),
         _ => return None,
     };
     if rng.gen_ratio(1, 3) {
@@ -1650,7 +1652,16 @@ pub fn seeded_session(rng: &mut StdRng, profile: &str) -> Option<String> {
 pub fn mutate_doc(rng: &mut StdRng, doc: &str) -> String {
     let mut v: Value = serde_json::from_str(doc).unwrap();
     let big = json!(18446744073709551615u64);
-    match rng.gen_range(0..16) {
+    match rng.gen_range(0..21) {
+        // equivalent or near-equivalent FORMS of the document (serde accepts a struct given as the sequence of its
+        // fields; stores re-indent documents and may write integers as floats): the nested `uplink` as a sequence,
+        // consistent, with a length that disagrees, with a short data array; the whole document pretty-printed; a
+        // counter written as a float
+        16 => { let u = v["uplink"].clone(); v["uplink"] = json!([u["confirmed"], u["pending_len"], u["pending_data"]]); }
+        17 => { let u = v["uplink"].clone(); v["uplink"] = json!([u["confirmed"], rng.gen_range(16..=255), u["pending_data"]]); }
+        18 => { let u = v["uplink"].clone(); v["uplink"] = json!([u["confirmed"], u["pending_len"], [1, 2, 3]]); }
+        19 => { return serde_json::to_string_pretty(&v).unwrap(); }
+        20 => { let n = v["fcnt_up"].as_u64().unwrap_or(0); let t = v.to_string(); return t.replacen(&format!("\"fcnt_up\":{n}"), &format!("\"fcnt_up\":{n}.0"), 1); }
         0 => { v.as_object_mut().unwrap().remove("fcnt_up"); }
         1 => { v.as_object_mut().unwrap().remove("fcnt_down"); }
         2 => { v["fcnt_down"] = Value::Null; }
@@ -1780,6 +1791,46 @@ pub fn vh_mac(a: &Args) {
                 }
                 h += 1;
             }
+            // Silent run: a long run of uplinks that nothing answers, from the default (lowest) data rate, from the one
+            // above it and (thorough) from the highest: the ADR back-off falls due at 96, 128, .. uplinks - also when
+            // there is no lower data rate left - and every one of these uplinks still needs a counter of its own
+            // (C06), its header bits and the data rate of Mac.tla (C12).
+            if matches!(a.get("profile"), Some("faults") | Some("adr")) && (a.thorough || ["EU868", "US915", "IN865"].contains(&region.as_str())) {
+                let (fr, classc) = match front.as_str() {
+                    "nb" => ("nb", false),
+                    "async" => ("async", false),
+                    _ => ("async", true),
+                };
+                let top = if region == "US915" { 3u8 } else { 5 };
+                let mut variants: Vec<(Option<u8>, usize)> = vec![(None, 132), (Some(1), 140)];
+                if a.thorough {
+                    variants.push((Some(top), 330));
+                }
+                for (dr, n) in variants {
+                    let mut ops = vec![
+                        Op::Reset { region: region.clone(), front: fr.into(), classc, board: 0, bias_sb: 0, bias_retries: 1,
+                                    lead: 10, buffer: 10, offset: 0, duration: 500, session: None },
+                        Op::JoinAbp { nwk: [3u8; 16], app: [4u8; 16], addr: [9, 8, 7, 6] },
+                    ];
+                    if let Some(dr) = dr {
+                        ops.push(Op::SetDr { dr });
+                    }
+                    for i in 0..n {
+                        // (an application that states its settings again: enabling ADR while it is enabled, setting the
+                        // data rate in force once more - neither restarts the count of unanswered uplinks)
+                        if dr.is_some() && i == 70 {
+                            ops.push(Op::SetAdr { on: true });
+                        }
+                        if dr == Some(1) && i == 75 {
+                            ops.push(Op::SetDr { dr: 1 });
+                        }
+                        ops.push(Op::Send { port: 3, data: vec![i as u8], confirmed: i % 7 == 3, draws: vec![],
+                                            plan: Proc { tx: "done".into(), ts: 10, fault: -1, ..Default::default() } });
+                    }
+                    let _ = run_history(out.shard(h), &ops, a.seed ^ (h as u64) ^ 0x511, None);
+                    h += 1;
+                }
+            }
             // Join walk, fixed plans: a long run of unanswered join attempts under each join-bias setting (none, the
             // compliant single try, several tries on the preferred sub-band): every attempt must put one JoinRequest
             // on a join channel with the data rate it mandates - the walk over the nine banks of eight channels never
@@ -1800,14 +1851,17 @@ pub fn vh_mac(a: &Args) {
             // with several retries, joined early, JoinAccept without CFList, no channel mask received yet) go out
             // on the preferred sub-band at the join data rate whatever data rate is configured: RX1 follows the
             // data rate of the transmission, not the configured one.
-            if a.get("profile") == Some("rxwin") && (region == "US915" || region == "AU915") {
+            if matches!(a.get("profile"), Some("rxwin") | Some("onlych")) && (region == "US915" || region == "AU915") {
                 let (fr, classc) = match front.as_str() {
                     "nb" => ("nb", false),
                     "async" => ("async", false),
                     _ => ("async", true),
                 };
+                // (255: the region's 500 kHz uplink data rate - the configured data rate then belongs to the other bandwidth
+                // class than the channels of the preferred sub-band)
                 for (sb, retries, dr, dl, adr) in [(2u8, 2usize, 3u8, 0x00u8, false), (7, 4, 2, 0x10, false), (1, 4, 3, 0x20, false), (8, 3, 1, 0x00, false),
-                                                   (2, 8, 3, 0x00, true), (5, 4, 1, 0x10, true)] {
+                                                   (2, 8, 3, 0x00, true), (5, 4, 1, 0x10, true), (3, 4, 255, 0x00, false), (6, 3, 255, 0x10, true)] {
+                    let dr = if dr == 255 { if region == "US915" { 4 } else { 6 } } else { dr };
                     let appkey = [7u8; 16];
                     let ja = Net::join_accept(&appkey, [1, 0, 0], [1, 2, 3], [1, 2, 3, 4], dl, 1, -1, &[]);
                     let proc_ = |rx1: Vec<Frame>| Proc { tx: "done".into(), ts: 10, rx1, fault: -1, ..Default::default() };
@@ -2460,6 +2514,8 @@ pub fn vh_mcdata(a: &Args) {
         (100, 100, vec![100, 99, 0]),
         (0x0001_FFF0, 0x0002_0010, vec![0x0001_FFF0, 0x0001_FFFF, 0x0002_0000, 0x0001_FFFF, 0x0002_000F, 0x0002_0010]),
     ];
+    // (sequences of the design-level model are a recording of their own)
+    let plans = if a.get("seqs").is_some() { vec![] } else { plans };
     for (gi, (min, max, counters)) in plans.iter().enumerate() {
         for group in [0u8, 3] {
             let mcaddr = [0x11u8 + gi as u8, 0x22, 0x33, 0x44];
@@ -2538,7 +2594,12 @@ pub fn vh_mcdata(a: &Args) {
     }
     // ---- the group table: set-up / status / delete requests and frames of several groups (McTrace.tla decodes
     // every heard and every transmitted frame itself; nothing below tells it what to expect)
-    for script in mc_table_scripts(a.seed, if a.thorough { 120 } else { 24 }) {
+    let scripts = match a.get("seqs") {
+        // specification -> implementation: event sequences printed by TLC from the design-level model MCMc.tla
+        Some(path) => mc_model_scripts(path),
+        None => mc_table_scripts(a.seed, if a.thorough { 120 } else { 24 }),
+    };
+    for script in scripts {
         let ops = vec![
             Op::Reset { region: "EU868".into(), front: "async".into(), classc: true, board: 0, bias_sb: 0, bias_retries: 1,
                         lead: 10, buffer: 10, offset: 0, duration: 500, session: None },
@@ -2567,6 +2628,11 @@ pub fn vh_mcdata(a: &Args) {
                 }
                 McStep::Hear { frame, slot } => {
                     let f = Frame { bytes: frame, snr: 3, intent: "mc:data".into() };
+                    if slot >= 100 {
+                        // (sequences of the design-level model: the model's own verdict travels in the intent)
+                        let f = Frame { intent: format!("mcmc:acc={}", slot - 100), ..f };
+                        return Some(Op::Rxc { frames: vec![f] });
+                    }
                     if slot > 3 {
                         Op::Rxc { frames: vec![f] }
                     } else {
@@ -2589,6 +2655,44 @@ pub fn vh_mcdata(a: &Args) {
         h += 1;
     }
     println!("events={} histories={h}", out.finish());
+}
+
+/// `vh mcdata seqs=FILE`: one history per line of FILE, a JSON array of the events of MCMc.tla - {"e":"setup","g",
+/// "a","k","min","max"} | {"e":"delete","g"} | {"e":"frame","a","k","n","acc"} - over the model's scaled counter space
+/// (2-bit wire counter, 1-bit upper half).  The embedding into the real counter space keeps the order and the
+/// upper half: n -> (n div 4) * 65536 + [0, 1, 65534, 65535][n mod 4]; key k -> McKey_encrypted 0x50+k ..; address
+/// "A" / "B".  Set-up and delete requests arrive in RX1 of an uplink, frames while listening outside a procedure.
+fn mc_model_scripts(path: &str) -> Vec<Vec<McStep>> {
+    let conc = |n: u64| -> u32 { ((n / 4) as u32) * 65536 + [0u32, 1, 65534, 65535][(n % 4) as usize] };
+    let addr_of = |a: &str| -> [u8; 4] { if a == "A" { [0x11, 0x22, 0x33, 0x44] } else { [0x21, 0x22, 0x33, 0x44] } };
+    let text = std::fs::read_to_string(path).expect("seqs file");
+    let mut out = vec![];
+    for line in text.lines().filter(|l| !l.trim().is_empty()) {
+        let evs: Vec<Value> = serde_json::from_str(line).expect("sequence");
+        let mut v = vec![];
+        for e in &evs {
+            match e["e"].as_str().unwrap_or("") {
+                "setup" => {
+                    let m = McNet::new(e["g"].as_u64().unwrap() as u8, addr_of(e["a"].as_str().unwrap()), [0x50 + e["k"].as_u64().unwrap() as u8; 16],
+                                       conc(e["min"].as_u64().unwrap()), conc(e["max"].as_u64().unwrap()));
+                    v.push(McStep::Setup { cmds: m.setup_cmd(), via: 0 });
+                    v.push(m.marker());
+                }
+                "delete" => v.push(McStep::Setup { cmds: vec![0x03, e["g"].as_u64().unwrap() as u8], via: 0 }),
+                "frame" => {
+                    // (the group id and the ranges are irrelevant to the frame: address, key and counter make it)
+                    let m = McNet::new(0, addr_of(e["a"].as_str().unwrap()), [0x50 + e["k"].as_u64().unwrap() as u8; 16], 0, 0);
+                    let n = conc(e["n"].as_u64().unwrap());
+                    v.push(McStep::Hear { frame: m.frame(n, 201 + (n % 5) as i32, 0xE0), slot: 100 + e["acc"].as_u64().unwrap() as u8 });
+                }
+                _ => {}
+            }
+        }
+        v.push(McStep::Take);
+        v.push(McStep::Send);
+        out.push(v);
+    }
+    out
 }
 
 /// One step of a group-table history (`vh mcdata`).
